@@ -145,19 +145,16 @@ XalanDOMString::resize(
 
     if (theCount != theOldSize)
     {
-        if (theOldSize == 0)
+        if (m_data.empty() == false)
         {
-            // If the string is of 0 length, resize but add an
-            // extra byte for the terminating byte.
-            m_data.resize(theCount + 1, theChar);
+            // The buffer already holds a terminating null.  Put a
+            // copy of theChar where it is, so that a longer string
+            // does not keep it in the middle.
+            m_data.back() = theChar;
         }
-        else
-        {
-            // If the string is not of 0 length, resize but
-            // put a copy of theChar where the terminating
-            // byte used to be.
-            m_data.resize(theCount + 1, theChar);
-        }
+
+        // Resize, with an extra position for the terminating null.
+        m_data.resize(theCount + 1, theChar);
 
         m_size = theCount;
 
